@@ -34,6 +34,27 @@ class Elems:
         return f"Elems({self.n})"
 
 
+class Iter:
+    """a one-shot iterator over n opaque elements; islice()/next()/list() consume it"""
+    def __init__(self, n, is_str=False):
+        self.n = max(0, int(n))
+        self.is_str = is_str
+
+    def take(self, k=None):
+        got = self.n if k is None else max(0, min(self.n, k))
+        self.n -= got
+        return got
+
+    def __repr__(self):
+        return f"Iter({self.n})"
+
+
+class _Lazy:
+    """islice(it, k) not yet consumed"""
+    def __init__(self, it, k):
+        self.it, self.k = it, k
+
+
 class _Return(Exception):
     def __init__(self, v):
         self.v = v
@@ -54,6 +75,10 @@ def iterate(v):
         return list(v)
     if isinstance(v, _Zip):
         return [tuple(t) for t in zip(*[iterate(a) for a in v.args])]
+    if isinstance(v, Iter):
+        return [Opaque(v.is_str) for _ in range(v.take())]
+    if isinstance(v, _Lazy):
+        return [Opaque(v.it.is_str) for _ in range(v.it.take(v.k))]
     raise Unmodelled(f"iteration over {type(v).__name__}")
 
 
@@ -65,6 +90,7 @@ class _Zip:
 class CardEval:
     def __init__(self, env, max_steps=200000):
         self.env = dict(env)
+        self.yields = []
         self.steps = 0
         self.max_steps = max_steps
 
@@ -102,6 +128,8 @@ class CardEval:
                     return a * b
                 if isinstance(e.op, ast.FloorDiv) and b != 0:
                     return a // b
+                if isinstance(e.op, ast.Mod) and b != 0:
+                    return a % b
                 raise Unmodelled("int op")
             if isinstance(e.op, ast.Mult) and isinstance(a, list) and isinstance(b, int):
                 return a * b
@@ -132,6 +160,8 @@ class CardEval:
                     if type(op) in (ast.Eq, ast.NotEq, ast.Lt, ast.LtE, ast.Gt, ast.GtE) else self._unm("compare op")
             if isinstance(e.ops[0], (ast.Eq, ast.NotEq)) and isinstance(b, list) and not b and isinstance(a, (list, Elems)):
                 return (length(a) == 0) == isinstance(e.ops[0], ast.Eq)
+            if isinstance(e.ops[0], (ast.Is, ast.IsNot)) and b is None:
+                return (a is None) == isinstance(e.ops[0], ast.Is)
             raise Unmodelled("compare operands")
         if isinstance(e, ast.Subscript):
             base = self.ev(e.value, env)
@@ -173,7 +203,19 @@ class CardEval:
                 return _Zip(args)
             if name == "list" and len(args) == 1:
                 v = args[0]
+                if isinstance(v, (Iter, _Lazy)):
+                    items = iterate(v)
+                    return Elems(len(items), bool(items) and items[0].is_str)
                 return v if isinstance(v, Elems) else iterate(v)
+            if name == "iter" and len(args) == 1:
+                v = args[0]
+                if isinstance(v, Iter):
+                    return v
+                return Iter(length(v), getattr(v, "is_str", False))
+            if name == "islice" and len(args) == 2 and isinstance(args[0], Iter) and (args[1] is None or (isinstance(args[1], int) and not isinstance(args[1], bool))):
+                if args[1] is not None and args[1] < 0:
+                    raise Unmodelled("negative islice stop")
+                return _Lazy(args[0], args[1])
             if name == "accumulate" and len(args) == 1 and isinstance(args[0], list) and all(isinstance(x, int) for x in args[0]):
                 return list(itertools.accumulate(args[0]))
             if name == "isinstance" and len(args) == 0:
@@ -267,6 +309,12 @@ class CardEval:
             v = st.value
             if isinstance(v, ast.Constant):
                 return
+            if isinstance(v, ast.Yield):
+                self.yields.append(self.ev(v.value, env) if v.value is not None else None)
+                return
+            if isinstance(v, ast.YieldFrom):
+                self.yields.extend(iterate(self.ev(v.value, env)))
+                return
             if isinstance(v, ast.Call) and isinstance(v.func, ast.Attribute) and v.func.attr == "append" and isinstance(v.func.value, ast.Name) and len(v.args) == 1:
                 tgt = env.get(v.func.value.id)
                 if isinstance(tgt, list):
@@ -282,6 +330,14 @@ class CardEval:
         if isinstance(st, ast.For) and not st.orelse:
             for item in iterate(self.ev(st.iter, env)):
                 self.bind(st.target, item, env)
+                self.block(st.body)
+            return
+        if isinstance(st, ast.While) and not st.orelse:
+            k = 0
+            while self.test(st.test, env):
+                k += 1
+                if k > 10000:
+                    raise Unmodelled("loop bound")
                 self.block(st.body)
             return
         if isinstance(st, ast.Return):
